@@ -225,7 +225,10 @@ static double sensitivity(prof const *q)
     a_trajbell bb;
     memset(&bt, 0, sizeof bt);
     memset(&bb, 0, sizeof bb);
-    if (!(call_gen(q->gen, q->gen ? (void *)&bb : (void *)&bt, q->in) > 0)) { free(tt); free(tb); return INFINITY; }
+    /* the judged plan reported a positive duration; if the same request is declined on a clean context the plan depends on what the
+       context held before, and there is no conditioning to speak of: judge it with the tightest tolerance (mutation sweep: the
+       duration of the deceleration-only branch no longer stored -> a stale duration from the previous plan is returned) */
+    if (!(call_gen(q->gen, q->gen ? (void *)&bb : (void *)&bt, q->in) > 0)) { free(tt); free(tb); VF_COUNT("plan-declined-on-clean-context-but-not-on-used-one"); return 0; }
     for (int i = 0; i < 7; ++i)
     {
         for (int s = -2; s <= 2; s += 4)
